@@ -33,6 +33,7 @@ type vGthr struct {
 type vPolicy struct {
 	Rules map[string][]vVerifier `json:"rules"`
 	Gthr  []vGthr                `json:"gthr"`
+	Cgthr []vGthr                `json:"cgthr"` // global rules contributed by a controller repository's metadata
 	Bfp   []string               `json:"bfp"`
 	All   []string               `json:"all"`
 	Apps  hxAppMap               `json:"apps"`
@@ -363,7 +364,25 @@ func (r *vRepo) add(pos int, e vEntry) error {
 		if err != nil {
 			return err
 		}
-		root, err := r.h.WriteTree([]gitstore.TreeEntry{{Path: "metadata", ID: mdTree, Kind: gitstore.KindSubtree}})
+		rootEntries := []gitstore.TreeEntry{{Path: "metadata", ID: mdTree, Kind: gitstore.KindSubtree}}
+		if len(p.Cgthr) > 0 {
+			// the propagated metadata of a controller repository, carrying its own global rules
+			cp := &conc.AbsPolicy{RootPr: []string{"ctlroot"}, RootThr: 1, RootSig: []string{"ctlroot"}}
+			for n, g := range p.Cgthr {
+				pats := []string{}
+				for _, rf := range g.Refs {
+					pats = append(pats, "git:"+fullRef(rf))
+				}
+				cp.Globals = append(cp.Globals, conc.AbsGlobal{Name: fmt.Sprintf("ctl-gthr-%d", n+1), Kind: "threshold", Pats: pats, Thr: g.Thr})
+			}
+			cmd, _ := conc.BuildMetadata(cp, r.seed)
+			cTree, err := cmd.WriteTree(r.h)
+			if err != nil {
+				return err
+			}
+			rootEntries = append(rootEntries, gitstore.TreeEntry{Path: "gittuf-controller/ctl", ID: cTree, Kind: gitstore.KindSubtree})
+		}
+		root, err := r.h.WriteTree(rootEntries)
 		if err != nil {
 			return err
 		}
